@@ -177,7 +177,9 @@ func (e *Explore) Run(ctx context.Context, con int) error {
 							time.Sleep(e.retryInterval)
 							e.targetsLock.Lock()
 							defer e.targetsLock.Unlock()
-							if e.targets[hash] != nil {
+							// only retry the object that is still tracked: the target may have been removed and
+							// added again meanwhile, then a new object (with its own exploring cycle) owns the hash
+							if e.targets[hash] == tar {
 								e.needExplore <- tar
 							}
 						}()
